@@ -93,6 +93,14 @@ var textHeaderVariants = []named{
 	{"non-ascii-value", "//script ik=é"},
 }
 
+// streamMust: the damaged streams that cannot be read as a bulk at all by any reading of the
+// format (text where a header or a JSON document must be, a document cut in the middle):
+// definitely invalid input, which must be answered 4xx. Everything else stays in doubt.
+var streamMust = map[string]bool{
+	"text-instead": true, "text-before-first-header": true, "json-array-instead": true,
+	"text-only": true, "text-stream-instead": true, "truncated-half": true,
+}
+
 // textStreamCases: line-level damage of the text stream. Everything is "in doubt" (a
 // damaged stream may be refused as a whole or run up to the damage): what counts is that
 // the process answers, with a well-formed body, and that a 4xx leaves the database as it was
@@ -101,7 +109,7 @@ func textStreamCases(s *Seed) []mcase {
 	base := s.Req
 	var out []mcase
 	add := func(where, name, body string) {
-		out = append(out, mcase{Seed: s.ref(), Loc: "text-stream:" + where, Repl: name, Req: base.withBody(body)})
+		out = append(out, mcase{Seed: s.ref(), Loc: "text-stream:" + where, Repl: name, Must: streamMust[name], Req: base.withBody(body)})
 	}
 	valid := base.Body
 	el0 := textElement(textStreamElements[0][0], textStreamElements[0][1])
@@ -167,7 +175,7 @@ func jsonStreamCases(s *Seed) []mcase {
 	base := s.Req
 	var out []mcase
 	add := func(where, name, body string) {
-		out = append(out, mcase{Seed: s.ref(), Loc: "json-stream:" + where, Repl: name, Req: base.withBody(body)})
+		out = append(out, mcase{Seed: s.ref(), Loc: "json-stream:" + where, Repl: name, Must: streamMust[name], Req: base.withBody(body)})
 	}
 	docs := jsonStreamDocs
 	join := func(d []string, sep string) string { return strings.Join(d, sep) }
